@@ -241,6 +241,21 @@ def check_case(ctx, case):
                 mp2, mt2, res2 = run_real(case, fullscan=True)
                 v2, _ = judge(case, mp2, mt2, res2)
                 via = (v2 == [])
+                if via:
+                    # ... and is it the RECORDED mechanism?  Every admissible start road that the real run lacks must have
+                    # its start node outside the search box of radius max_dist_init around the first observation; a start
+                    # road lost although its start node is inside that box is something else (e.g. a smaller radius asked)
+                    have = {x.shortkey for x in mt.lattice[0].values(0)} if mt.lattice else set()
+                    lost = [s_ for s_ in cols[0] if s_ not in have] if cols and cols[0] else []
+                    yb, xl, yt, xr = mp.box_around_point(tuple(path[0][:2]), ref.max_dist_init)
+                    for s_ in lost:
+                        a_ = ref.coords[s_[0]]
+                        if yb <= a_[0] <= yt and xl <= a_[1] <= xr:
+                            via = False
+                            verdicts = [(k_ + ":start-road-lost-although-its-start-node-is-inside-the-search-box", w_) for k_, w_ in verdicts]
+                            break
+                    if not lost:
+                        via = False
             except Exception:
                 via = False
         for kind, why in verdicts:
